@@ -417,7 +417,11 @@ impl B<'_, '_> {
                     }
                     5 | 6 => {
                         let x = self.expr(Ty::Int, d);
-                        let v = self.t.below(40) as i128 - 20;
+                        let v = if self.t.chance(1, 10) {
+                            *self.t.pick(&[65535i128, -65535, 65536, -65536, 65534, 255, 256, -256, 1024, -1024, 0x7fffffff, -0x80000000])
+                        } else {
+                            self.t.below(40) as i128 - 20
+                        };
                         let sv = self.atom(&int_bytes(v));
                         let s = self.quote(sv);
                         self.callc(if k == 5 { 22 } else { 23 }, &[x, s])
